@@ -89,6 +89,7 @@ def showEvent : Event → String
   | .wakeread => "wakeread"
   | .post t => s!"post {t}"
   | .started => "started"
+  | .startedNull => "started null"
   | .joined => "joined"
   | .returned => "returned"
   | .destroyed => "destroyed"
